@@ -49,6 +49,8 @@ func main() {
 		runConc(os.Args[2:])
 	case "flock":
 		runFlock(os.Args[2:])
+	case "flockchild":
+		runFlockChild(os.Args[2:])
 	default:
 		fmt.Fprintln(os.Stderr, "unknown sub-command", os.Args[1])
 		os.Exit(2)
